@@ -7,6 +7,7 @@ import (
 	"strings"
 
 	"verif/harness/internal/hx"
+	"verif/harness/internal/prng"
 )
 
 func hb(s string) []byte {
@@ -124,4 +125,34 @@ var corpus = []func(o *hx.Out, k int){
 		h.block(3, B("1202=aa", "34=bb"))
 		h.checkRetained(h.m.View(), true)
 	},
+	// 6: a dropped block over a persistent layer that hands out copies: nothing below the block's
+	// cache may change before a commit (AddMPTBatch must write into the cache only)
+	func(o *hx.Out, k int) {
+		m := newModMOn("latest", "copy")
+		defer m.Close()
+		h := newHist(o, k, "latest", m)
+		h.probes = probes("1201", "3401", "5601")
+		h.block(0, B("1201=aa", "3401=bb"))
+		h.block(1, B("1201=cc", "7801=aa"))
+		h.drop(2, B("5601=cc", "3401=del"))
+		h.block(2, B("1201=dd"))
+	},
+	// 7, 8: state-sync restore of a trie with the same sub-trie at two paths, flushed to a copying
+	// persistent layer before every restoration; then copies are removed and everything is read
+	func(o *hx.Out, k int) { corpusRestore(o, k, "copy") },
+	func(o *hx.Out, k int) { corpusRestore(o, k, "bolt") },
+}
+
+func corpusRestore(o *hx.Out, k int, lower string) {
+	r := prng.New(77)
+	g := newGen(r, o, false)
+	cont := map[string][]byte{}
+	for _, p := range []byte{0x31, 0x51} {
+		cont[string([]byte{p, 0x01})] = []byte{0xaa}
+		cont[string([]byte{p, 0x02})] = []byte{0xbb}
+		cont[string([]byte{p, 0x12})] = []byte{0xaa}
+	}
+	cont[string([]byte{0x77})] = []byte{0xaa}
+	g.pool = append(g.pool, []byte{0x31, 0x01}, []byte{0x51, 0x01}, []byte{0x31, 0x02}, []byte{0x51, 0x12})
+	restoreRun(o, k, r, "latest", lower, cont, g, 1)
 }
